@@ -1169,7 +1169,7 @@ class Constructs(mixin.Container, core.Constructs):
                         "arguments are also set"
                     )
             elif "filter_by_identity" in filter_kwargs:
-                identities = filter_kwargs["filter_by_identity"]
+                identities = filter_kwargs.pop("filter_by_identity")
 
         if identities:
             # Make sure that filter_by_identity is the last filter
